@@ -59,6 +59,8 @@ def configs():
         "simple": (text(analysis.SimpleAnalyzer()), P),
         "stemming": (text(analysis.StemmingAnalyzer()), P),
         "stemming-cached": (text(analysis.StemmingAnalyzer(cachesize=3)), P),
+        "stemming-cache1": (text(analysis.StemmingAnalyzer(cachesize=1)), P),
+        "stemming-nocache": (text(analysis.StemmingAnalyzer(cachesize=0)), P),
         "stemming-ignore": (text(analysis.StemmingAnalyzer(ignore=[u"running", u"libraries", u"jumped"])), P),
         "fancy": (text(analysis.FancyAnalyzer()), {"positional": False, "offsets": False, "highlight": False}),
         "regex": (text(analysis.RegexAnalyzer()), P),
@@ -148,6 +150,8 @@ def _build_case(run, rng, name, field, flags, ndocs, schema, storage):
         w = ix.writer()
         for k in part:
             texts[k] = rand_text(rng, (1, 2) if name in ("id",) else (1, 9))
+            if k == keys[-1] and name not in ("id", "keyword", "keyword-commas"):
+                texts[k] = rng.choice([u"", u" ", u"the", u"..."])        # a value without any token
             if name == "space+strip+subst" and rng.random() < 0.6:   # a token the filter empties completely
                 texts[k] += rng.choice([u" - x", u" -- -", u" a - b"])
             if name == "keyword-commas" and rng.random() < 0.6:      # an empty item between commas
